@@ -15,7 +15,8 @@ for d in seeded/*/; do
   # changes that break another property than the one they were written for (DESIGN.md 13.1, 13.2)
   case $n in
     C11-B) prop=C03;; C02-R2B) prop=C15;; C04-R2B) prop=C16;; C05-R2A) prop=C03;; C10-R2B) prop=C14;;
-    C11-R2A|C16-R2A|C16-R2B|C15-R3A) prop=C05;; C15-R3B) prop=C02;;
+    C11-R2A|C16-R2A|C16-R2B|C15-R3A|C04-R4A) prop=C05;; C15-R3B) prop=C02;;
+    C03-R4B) prop=C14;; C04-R4B) prop=C03;; C16-R4A|C16-R4B) prop=C09;;
   esac
   echo "== $n -> $prop"; tools/trymut.sh $patch $prop 2>&1 | tail -1 | cut -c1-200
 done
